@@ -124,8 +124,11 @@ func c06Domain(r *rand.Rand, name string, isInt bool, na string, withNA bool) []
 func C06Generate(r *rand.Rand, p C06Params) *C06Workload {
 	w := &C06Workload{}
 	na := "NA"
-	if r.Intn(5) == 0 {
+	switch r.Intn(10) {
+	case 0, 1:
 		na = "none"
+	case 2:
+		na = "" // an empty NA value is a value like another
 	}
 	w.Opts.NA = na
 	// requested keys
